@@ -14,9 +14,9 @@ import (
 	"github.com/zenon-network/go-zenon/protocol"
 	"github.com/zenon-network/go-zenon/verifier"
 	"github.com/zenon-network/go-zenon/vm"
-	"github.com/zenon-network/go-zenon/vm/vm_context"
 	"github.com/zenon-network/go-zenon/vm/constants"
 	"github.com/zenon-network/go-zenon/vm/embedded/definition"
+	"github.com/zenon-network/go-zenon/vm/vm_context"
 	"github.com/zenon-network/go-zenon/wallet"
 )
 
@@ -74,6 +74,47 @@ func (h *hist) variant(key, what string, orig *nom.AccountBlockTransaction, v *n
 	h.out.Oracle(ok, key, M{"what": what, "address": v.Address.String(), "height": U64(v.Height), "hash": v.Hash.String(),
 		"same_hash": tx.Block.Hash == orig.Block.Hash, "same_stored_bytes": sameBytes, "same_patch": samePatch})
 	return ok
+}
+
+// formVariant: a variant that nobody needs a key for. Like variant (ApplyBlock), without a model case for most of
+// them (the acceptance model is compared on a sample), and, when the bytes differ from the original, once more
+// through the gossip entry of the node: it must not reach the pool.
+func (h *hist) formVariant(key, what string, orig *nom.AccountBlockTransaction, v *nom.AccountBlock) {
+	differs := !bytes.Equal(ser(v), ser(orig.Block))
+	gossip := cp(v)
+	if h.rng.Intn(6) == 0 {
+		h.variant(key, what, orig, v)
+	} else {
+		tx, err := h.nd.Apply(v)
+		if err != nil {
+			h.out.Count("variant:" + key + ":refused")
+			h.out.Oracle(true, key, nil)
+		} else {
+			sameBytes := bytes.Equal(ser(tx.Block), ser(orig.Block))
+			samePatch := db.PatchHash(tx.Changes) == db.PatchHash(orig.Changes)
+			if sameBytes && samePatch {
+				h.out.Count("variant:" + key + ":stored-identically")
+			} else {
+				h.out.Count("variant:" + key + ":ACCEPTED-DIFFERENT")
+			}
+			h.out.Oracle(sameBytes && samePatch, key, M{"what": what, "path": "Supervisor.ApplyBlock", "address": v.Address.String(), "height": U64(v.Height),
+				"hash": v.Hash.String(), "same_hash": tx.Block.Hash == orig.Block.Hash, "same_stored_bytes": sameBytes, "same_patch": samePatch,
+				"original": Byt(ser(orig.Block)), "variant": Byt(ser(gossip)), "stored": Byt(ser(tx.Block))})
+		}
+	}
+	if !differs {
+		return
+	}
+	if h.nd.Ch.GetPatch(gossip.Address, gossip.Identifier()) != nil {
+		// an earlier variant got into the pool (reported there): the bridge skips every further one
+		h.out.Count("variant:" + key + ":gossip:skipped-identifier-already-pooled")
+		return
+	}
+	err := h.br.AddAccountBlocks([]*nom.AccountBlock{gossip})
+	pooled := h.nd.Ch.GetPatch(gossip.Address, gossip.Identifier()) != nil
+	h.out.Count("variant:" + key + ":gossip:" + map[bool]string{true: "POOLED", false: "refused"}[pooled])
+	h.out.Oracle(err != nil && !pooled, key+"-pooled", M{"what": what, "path": "ChainBridge.AddAccountBlocks", "address": v.Address.String(),
+		"height": U64(v.Height), "hash": v.Hash.String(), "original": Byt(ser(orig.Block)), "variant": Byt(ser(gossip))})
 }
 
 // what the external functions say about a delivered user block (inputs of the acceptance model)
@@ -183,6 +224,33 @@ func (h *hist) userVariants(orig *nom.AccountBlockTransaction) {
 		v.Signature = g.User4.Sign(v.Hash.Bytes())
 	}
 	h.variant("user-block-signature-variant", "Signature altered", orig, v)
+	// EVERY other byte form of the two fields the hash does not cover and a third party can rewrite without the key
+	// (forms.go): none of them may be accepted next to the original. Through Supervisor.ApplyBlock, and through the
+	// gossip entry (ChainBridge.AddAccountBlocks = ApplyBlock + AddAccountBlockTransaction into the pool).
+	for _, f := range signatureForms(rng, b.Signature, b.Hash.Bytes(), b.PublicKey) {
+		v = cp(b)
+		v.Signature = f.bytes
+		h.formVariant("user-block-signature-form-variant", "Signature: "+f.name, orig, v)
+	}
+	for _, f := range publicKeyForms(rng, b.PublicKey, b.Hash.Bytes(), b.Signature) {
+		v = cp(b)
+		v.PublicKey = f.bytes
+		h.formVariant("user-block-publickey-form-variant", "PublicKey: "+f.name, orig, v)
+	}
+	// both at once: the combined forms some libraries hand out (key ‖ signature, signature ‖ key)
+	v = cp(b)
+	v.Signature = append(append([]byte{}, b.Signature...), b.PublicKey...)
+	v.PublicKey = append(append([]byte{}, b.PublicKey...), b.Signature...)
+	h.formVariant("user-block-signature-form-variant", "Signature ‖ PublicKey and PublicKey ‖ Signature", orig, v)
+	// the wire bytes written another way (protobuf allows it): unknown field, a field twice, non-minimal varints
+	for _, f := range reserialisations(rng, ser(b)) {
+		x, err := nom.DeserializeAccountBlock(f.bytes)
+		if err != nil || x == nil {
+			h.out.Count("variant:user-block-reserialised-variant:not-decodable")
+			continue
+		}
+		h.formVariant("user-block-reserialised-variant", "wire bytes: "+f.name, orig, x)
+	}
 	// same pre-image, other amount: BigIntToBytes drops the sign
 	if b.Amount.Sign() > 0 {
 		v = cp(b)
@@ -354,9 +422,20 @@ func (h *hist) variantHolder(tx *nom.AccountBlockTransaction) {
 	h.out.Oracle(err == nil && nd.FrontierHeight() == mk.Height, "redelivery-accepted", M{"height": U64(mk.Height)})
 	// momentum variants: key / signature are outside the momentum hash
 	rollback()
-	for k := 0; k < 3; k++ {
+	mforms := signatureForms(h.rng, dm.Momentum.Signature, dm.Momentum.Hash.Bytes(), dm.Momentum.PublicKey)
+	for k := 0; k < 3+len(mforms); k++ {
 		m2, _ := nom.DeserializeMomentum(func() []byte { d, _ := dm.Momentum.Serialize(); return d }())
 		what := ""
+		if k >= 3 {
+			m2.Signature = mforms[k-3].bytes
+			_, err := h.br.InsertChain([]*nom.DetailedMomentum{{Momentum: m2, AccountBlocks: dm.AccountBlocks}})
+			h.out.Oracle(err != nil && nd.FrontierHeight() == prev.Height, "momentum-signature-form-variant",
+				M{"what": "Signature: " + mforms[k-3].name, "height": U64(mk.Height), "hash": mk.Hash.String(), "signature": Byt(m2.Signature)})
+			if err == nil {
+				rollback()
+			}
+			continue
+		}
 		switch k {
 		case 0:
 			m2.Signature = append(m2.Signature, 0)
